@@ -169,6 +169,59 @@ impl G {
         out
     }
 
+    // ---------------- value-carrying layout operators: rank-0 <-> rank-1 transitions
+    /// Inputs that carry symbolic VALUES (scalars, length-1 vectors, longer vectors, the empty
+    /// vector) against target shapes / axes that change the rank between 0 and 1.  Reshape is always
+    /// enumerated completely; the other operators completely in the thorough tier and as a seeded
+    /// third in the quick tier.
+    pub fn value_layout_cases(&mut self, thorough: bool) -> Vec<String> {
+        let envs: Vec<Vec<(usize, i32)>> = vec![vec![(0, 2), (1, 3), (2, 0), (3, 1)], vec![(0, 1), (1, 1), (2, 1), (3, 1)],
+                                                vec![(0, 0), (1, 5), (2, 2), (3, -1)]];
+        let (a, b) = (mk_var(0, true), mk_var(1, true));
+        let kinds: Vec<Sym> = vec![
+            Sym::Scalar(a.clone()), Sym::Scalar(v(3)), Sym::Vector(vec![a.clone()]), Sym::Vector(vec![v(5)]),
+            Sym::Vector(vec![a.clone(), v(3)]), Sym::Vector(vec![v(2), b.clone(), v(4)]), Sym::Vector(vec![]),
+        ];
+        let len = |k: &Sym| -> i32 { match k { Sym::Vector(l) => l.len() as i32, _ => 1 } };
+        let iv = |l: &[i32]| Self::inp('i', Sym::Vector(l.iter().map(|x| v(*x)).collect()));
+        let mut all: Vec<(bool, String)> = vec![];     // (always included, line)
+        let mut mk = |always: bool, op: &str, attrs: Vec<(&str, Attr)>, inputs: Vec<Input>| {
+            all.push((always, Case { op: op.to_string(), domain: String::new(),
+                                     attrs: attrs.into_iter().map(|(n, a)| (n.to_string(), a)).collect(),
+                                     nout: 1, inputs, envs: envs.clone() }.to_line()));
+        };
+        for k in &kinds {
+            let d = || Self::inp('i', k.clone());
+            let n = len(k);
+            for shp in [vec![], vec![1], vec![-1], vec![1, 1], vec![n], vec![0]] { mk(true, "Reshape", vec![], vec![d(), iv(&shp)]); }
+            mk(true, "Reshape", vec![], vec![d(), Self::inp('i', Sym::Vector(vec![b.clone()]))]);
+            mk(true, "Reshape", vec![("allowzero", Attr::Int(1))], vec![d(), iv(&[n])]);
+            for axes in [None, Some(vec![0]), Some(vec![-1]), Some(vec![])] {
+                match axes { None => mk(false, "Squeeze", vec![], vec![d()]), Some(ax) => mk(false, "Squeeze", vec![], vec![d(), iv(&ax)]) }
+            }
+            for axes in [vec![0], vec![-1], vec![0, 1], vec![1]] { mk(false, "Unsqueeze", vec![], vec![d(), iv(&axes)]); }
+            mk(false, "Unsqueeze", vec![], vec![d(), Self::inp('i', Sym::Scalar(v(0)))]);
+            for ax in [0i64, 1, -1] { mk(false, "Flatten", vec![("axis", Attr::Int(ax))], vec![d()]); }
+            for shp in [vec![], vec![1], vec![1, 1], vec![n], vec![2]] { mk(false, "Expand", vec![], vec![d(), iv(&shp)]); }
+            mk(false, "Identity", vec![], vec![d()]);
+            for to in [1i64, 6, 7] { mk(false, "Cast", vec![("to", Attr::Int(to))], vec![d()]); }
+            mk(false, "Neg", vec![], vec![d()]);
+            if matches!(k, Sym::Vector(_)) {
+                for idx in [Sym::Scalar(v(0)), Sym::Scalar(v(-1)), Sym::Vector(vec![v(0)]), Sym::Vector(vec![]), Sym::Vector(vec![v(0), v(0)])] {
+                    mk(false, "Gather", vec![("axis", Attr::Int(0))], vec![d(), Self::inp('i', idx)]);
+                }
+                for (st, en) in [(0, 1), (0, 0), (1, 2147483647), (-1, 2147483647), (0, 2147483647)] {
+                    mk(false, "Slice", vec![], vec![d(), iv(&[st]), iv(&[en]), iv(&[0])]);
+                }
+            }
+            for k2 in &kinds { mk(false, "Concat", vec![("axis", Attr::Int(0))], vec![d(), Self::inp('i', k2.clone())]); }
+            mk(false, "Shape", vec![], vec![d()]);
+            mk(false, "Size", vec![], vec![d()]);
+        }
+        let pick = self.r.below(3);
+        all.into_iter().enumerate().filter(|(i, (always, _))| thorough || *always || (*i as u64) % 3 == pick).map(|(_, (_, l))| l).collect()
+    }
+
     // ---------------- modelled operators: targeted generators
     pub fn gen_modelled(&mut self) -> String {
         match self.r.below(24) {
